@@ -80,4 +80,16 @@ inline void require_bitwise_equal(Ctx &c, const Applied &s, const Applied &u, co
     c.label("equal:" + what);
 }
 
+// largest relative 2-norm difference over the probe vectors (0 when both were rejected alike)
+inline long double max_rel_diff(const Applied &s, const Applied &u) {
+    long double worst = 0;
+    if (s.threw || u.threw) return 0;
+    for (size_t k = 0; k < s.y.size(); ++k) {
+        long double num = 0, den = 0;
+        for (size_t i = 0; i < s.y[k].size(); ++i) { long double d = static_cast<long double>(s.y[k][i]) - u.y[k][i]; num += d * d; den += static_cast<long double>(s.y[k][i]) * s.y[k][i]; }
+        if (num > 0) worst = std::max(worst, std::sqrt(num / (den > 0 ? den : 1)));
+    }
+    return worst;
+}
+
 } // namespace c17
